@@ -35,6 +35,7 @@
 -/
 import RattrProofs.Lemmas.C11
 import RattrProofs.Lemmas.C11Subst
+import RattrProofs.Lemmas.C11Regex
 import RattrModel.Generated.C11
 
 namespace Rattr.C11
@@ -751,5 +752,88 @@ example :
     irKeys [{ name := sA, kind := .func, decos := [dNamed nIgnore], verdicts := [] },
             { name := sB, kind := .func, decos := [], verdicts := [true] },
             { name := sF, kind := .func, decos := [], verdicts := [false] }] = .ok [sF] := by decide
+
+/-! ### (i′) the exclusion verdicts themselves: `Pattern.fullmatch`, modelled (round 5)
+
+`fileDecision ds verdicts` above takes the per-pattern verdicts as given. `RattrModel/Regex.lean`
+models where they come from — `is_excluded_name` = `any(p.fullmatch(name) …)` over the compiled
+`--exclude` patterns — as a derivative matcher on the regular fragment of `re`; the lemmas in
+`Lemmas/C11Regex.lean` prove it decides the LANGUAGE of the pattern (`Regex.Matches`, the
+documentation's reading of a pattern), for every pattern and every name. -/
+
+/-- Tie A: `is_excluded_name` is one `any(... fullmatch ...)` over `re_excluded_names`, compiled with no
+flag but `re.UNICODE` -/
+theorem tieA_is_excluded_name_body :
+    Generated.C11.isExcludedNameBody =
+      ["config = Config()",
+       "return any((pattern.fullmatch(name) is not None for pattern in config.arguments.re_excluded_names))"] := by
+  decide
+
+theorem tieA_excluded_pattern_flags : Generated.C11.excludedPatternFlags = 32 := by decide
+
+/-- the model of `Pattern.fullmatch` is language membership: **all** patterns of the fragment, **all** names -/
+theorem C11_fullmatch_is_membership (r : Regex.Re) (name : Str) :
+    Regex.fullmatch r name = true ↔ Regex.Matches r name := Regex.fullmatch_iff r name
+
+/-- `is_excluded_name(name)` ⇔ the name is in the language of some `--exclude` pattern -/
+theorem C11_is_excluded_name_iff (pats : List Regex.Re) (name : Str) :
+    Regex.isExcludedName pats name = true ↔ ∃ p ∈ pats, Regex.Matches p name :=
+  Regex.isExcludedName_iff pats name
+
+/-- **excluded ⇒ skipped, from the patterns**: a module-level def / class whose name is in the language of
+some exclusion pattern gets no IR entry (with `C11_skip_no_entry`), whatever else decorates it -/
+theorem C11_excluded_by_pattern_skipped (ds : List Deco) (pats : List Regex.Re) (name : Str)
+    (hn : allNamed ds = true) (hx : ∃ p ∈ pats, Regex.Matches p name) :
+    fileDecision ds (Regex.verdicts pats name) = .ok .skip
+      ∧ classDecision ds (Regex.verdicts pats name) = .ok .skip := by
+  have hv : (Regex.verdicts pats name).any id = true := by
+    rw [Regex.verdicts_any]; exact (Regex.isExcludedName_iff pats name).2 hx
+  have he : expectedEntry ds (Regex.verdicts pats name) = false := by
+    simp [expectedEntry, hv]
+  exact C11_expected_entry ds _ hn he
+
+/-- **only a FULL match excludes**: an unmarked def whose name is in the language of no pattern is analysed —
+in particular a name that merely starts with, or contains, a match (`C11_prefix_match_is_not_full`) -/
+theorem C11_not_excluded_by_pattern_analysed (pats : List Regex.Re) (name : Str)
+    (hx : ¬ ∃ p ∈ pats, Regex.Matches p name) :
+    fileDecision [] (Regex.verdicts pats name) = .ok .analyse := by
+  have hv : (Regex.verdicts pats name).any id = false := by
+    rw [Regex.verdicts_any]
+    cases h : Regex.isExcludedName pats name with
+    | false => rfl
+    | true => exact absurd ((Regex.isExcludedName_iff pats name).1 h) hx
+  simp [fileDecision, hasAnnotation, isExcluded, hv]
+
+/-- `Pattern.match` (a prefix match) is what a full match must not be replaced by: it accepts every full match … -/
+theorem C11_full_match_is_a_prefix_match (r : Regex.Re) (name : Str)
+    (h : Regex.fullmatch r name = true) : Regex.prefixmatch r name = true ∧ Regex.searchmatch r name = true :=
+  ⟨Regex.fullmatch_imp_prefixmatch r name h,
+   Regex.prefixmatch_imp_searchmatch r name (Regex.fullmatch_imp_prefixmatch r name h)⟩
+
+/-- … and strictly more: `-x get` must not exclude `get_all`, and `-x all` must not exclude `get_all`
+(witnesses by `decide`; the general statements are `Regex.prefixmatch_iff` / `C11_fullmatch_is_membership`) -/
+theorem C11_prefix_match_is_not_full :
+    Regex.prefixmatch (Regex.Re.ofStr "get".toList) "get_all".toList = true
+      ∧ Regex.fullmatch (Regex.Re.ofStr "get".toList) "get_all".toList = false
+      ∧ Regex.searchmatch (Regex.Re.ofStr "all".toList) "get_all".toList = true
+      ∧ Regex.prefixmatch (Regex.Re.ofStr "all".toList) "get_all".toList = false := by decide
+
+/-- a literal pattern excludes exactly the callable of that name -/
+theorem C11_literal_pattern_excludes_only_that_name (p name : Str) :
+    Regex.fullmatch (Regex.Re.ofStr p) name = true ↔ name = p := by
+  rw [Regex.fullmatch_iff]; exact Regex.matches_ofStr p name
+
+/-- non-vacuity: `-x '_.*' -x 'C\.sm'` on `_helper` (excluded), `helper_` (not), `C.sm` (excluded), `CXsm` (not: the
+dot is escaped) -/
+example :
+    let pats : List Regex.Re :=
+      [.cat (.cls (.lit '_')) (.star (.cls .any)),
+       Regex.Re.ofStr "C.sm".toList]
+    Regex.verdicts pats "_helper".toList = [true, false]
+      ∧ Regex.verdicts pats "helper_".toList = [false, false]
+      ∧ Regex.verdicts pats "C.sm".toList = [false, true]
+      ∧ Regex.verdicts pats "CXsm".toList = [false, false]
+      ∧ fileDecision [] (Regex.verdicts pats "_helper".toList) = .ok .skip
+      ∧ fileDecision [] (Regex.verdicts pats "helper_".toList) = .ok .analyse := by decide
 
 end Rattr.C11
